@@ -107,6 +107,13 @@ class P(Prop):
                     if len(earlier) >= 2 and rng.random() < 0.4:
                         sts2 = [list(r) for r in rng.choice(earlier[:-1])]
                         reuse = False
+                    # the same SEQUENCE of breaker configurations as the setting before, held for other numbers of steps
+                    # (A A B C -> A B B B C C: other change points, possibly another length)
+                    if rng.random() < 0.3:
+                        prev = earlier[-1]
+                        runs = [list(r) for i, r in enumerate(prev) if i == 0 or r != prev[i - 1]]
+                        sts2 = [list(r) for r in runs for _ in range(rng.randint(1, 3))]
+                        reuse = False
                     case["later"].append({"sts": sts2, "reuse": reuse, "setter": rng.choice(["all", "each", None])})
             out.append(case)
         if tier == "thorough" and not override:
